@@ -1,0 +1,33 @@
+//go:build verif
+
+// Contracts for the TCP framing of the remoting layer (properties C11, C14). Comment-only: compiled under the
+// build tag `verif` and read by /verif/engine (govc).
+//
+// The byte stream of a connection is a ghost counter: consumed(conn) = bytes taken from the connection so far
+// (see stdlib_contracts/io.spec). A frame is a 4-byte big-endian length followed by that many bytes.
+
+package remoting
+
+// the envelope codec is another layer (C12): trusted frame here
+//@ func serialize.DecodeEnvelopWithRemoting
+//@   trusted
+//@ func serialize.EncodeEnvelopWithRemoting
+//@   trusted
+//@   ensures result.1 == nil ==> len(result.0) <= 4294967295
+
+// one frame on the wire: length prefix, then the encoded envelope, nothing else
+//@ func (*Mailbox).encodeEnvelopWithLength
+//@   requires envelop != nil
+//@   ensures  result.1 == nil ==> len(result.0) >= 4 && be32(result.0[0], result.0[1], result.0[2], result.0[3]) == len(result.0) - 4
+
+// onReadConn handles ONE frame. Exactly-once, in-order delivery over the stream rests on it taking exactly that
+// frame's bytes from the connection: at the moment an envelope is handed to the handler, and at every moment the
+// reader re-arms itself (TellSelf(conn)), the connection has given up exactly 4 + length bytes since the call
+// began - not more (bytes of the next frame must stay in the connection), not less (the stream would be out of
+// step). A length prefix above the 4 MiB limit is skipped on its own (the property's "frame with invalid length").
+//@ func (*tcpConnectionActor).onReadConn
+//@   callspec HandleRemotingEnvelop requires gcount(consumed, c.conn) == old(gcount(consumed, c.conn)) + 4 + len(msgBuf)
+//@   callspec TellSelf requires gcount(consumed, c.conn) == old(gcount(consumed, c.conn)) + 4 + (msgLen > 4194304 ? 0 : msgLen)
+//@   requires c.conn != nil && !typeis(c.conn, "*bufio.Reader") && ctx != nil && c.envelopHandler != nil && !held(c.writeCloseLock)
+//@   modifies anyold, gmap(consumed), gmap(published), gmap(rearmed), gmap(remotehandled)
+//@   ensures  gcount(remotehandled, 0) <= old(gcount(remotehandled, 0)) + 1
